@@ -11,12 +11,17 @@
 (* (the code has none: results are matched by repository and peer id).      *)
 (*                                                                         *)
 (* Actions = the service's entry points:                                    *)
-(*   Attempt(p) / Connect(p) / Disconnect(p) / Retry(p)                       *)
+(*   Attempt(p) / Connect(p) / Disconnect(p) / StaleDisconnect(p)             *)
 (*                                Service::attempted / connected /            *)
-(*                                disconnected / maintain_persistent          *)
+(*                                disconnected                                *)
 (*   FetchCmd(r, p), AnnFetch     Command::Fetch / inventory announcement     *)
 (*   TaskDone(g)                  worker result -> Wire gate -> fetched()    *)
-(*   Idle                         wake(): dequeue_fetches                    *)
+(*   Wake                         wake(): the idle task (dequeue_fetches), every *)
+(*                                second time the sync task                   *)
+(*                                (fetch_missing_repositories: every seeded   *)
+(*                                repository we do not have is fetched from   *)
+(*                                every connected seed the routing table      *)
+(*                                knows), then maintain_persistent             *)
 (* dequeue_fetches visits the sessions in a shuffled order: the model       *)
 (* chooses the order nondeterministically.                                  *)
 (*                                                                         *)
@@ -34,6 +39,8 @@ CONSTANTS Peer, Repo,
           QueueMax,      \* MAX_FETCH_QUEUE_SIZE
           MaxTasks,      \* bound: number of Io::Fetch emitted
           MaxOps,        \* bound: behaviour length
+          SyncTask,      \* BOOLEAN: model the sync task (off in the liveness instance: it creates
+                         \* fetches without bound)
           Dev
 
 VARIABLES
@@ -45,10 +52,12 @@ VARIABLES
     tasks,      \* [1..n -> [repo, peer, st]]  st \in {"running","done"}
     live,       \* ghost: tasks the service started and that were neither completed nor abandoned
     applied,    \* ghost: last step applied result of task g to the entry of task h: <<g, h>> or <<>>
+    routing,    \* SUBSET (Repo \X Peer): the routing table (who seeds what), as far as we learnt it
+    syncIn,     \* wake-ups until the sync task runs again (SYNC_INTERVAL = 2 * IDLE_INTERVAL)
     hist
 
-vars == <<st, sfetch, queue, fetching, tasks, live, applied, hist>>
-view == <<st, sfetch, queue, fetching, tasks, live, applied>>
+vars == <<st, sfetch, queue, fetching, tasks, live, applied, routing, syncIn, hist>>
+view == <<st, sfetch, queue, fetching, tasks, live, applied, routing, syncIn>>
 
 conn == {p \in Peer : st[p] = "connected"}      \* connected sessions
 sessions == {p \in Peer : st[p] # "none"}       \* peers that have a session at all
@@ -60,6 +69,7 @@ Init ==
     /\ st = [p \in Peer |-> IF p \in Persistent THEN "initial" ELSE "none"]
     /\ sfetch = [p \in Peer |-> {}] /\ queue = [p \in Peer |-> <<>>]
     /\ fetching = [r \in Repo |-> NoFetch] /\ tasks = <<>> /\ live = {} /\ applied = <<>> /\ hist = <<>>
+    /\ routing = {} /\ syncIn = 0
 
 \* MaxOps = 0: behaviours are not bounded and no history is kept (used for the liveness instance)
 Log(op) == IF MaxOps = 0 THEN UNCHANGED hist ELSE Len(hist) < MaxOps /\ hist' = Append(hist, op)
@@ -109,6 +119,9 @@ St == [sfetch |-> sfetch, queue |-> queue, fetching |-> fetching, tasks |-> task
 Set(s) == /\ sfetch' = s.sfetch /\ queue' = s.queue /\ fetching' = s.fetching
           /\ tasks' = s.tasks /\ live' = s.live
 
+\* the routing table matters to the sync task only
+Learn(r, p) == IF SyncTask THEN routing \cup {<<r, p>>} ELSE routing
+
 -----------------------------------------------------------------------------
 \* Service::attempted: our dial reached the peer
 Attempt(p) ==
@@ -116,7 +129,7 @@ Attempt(p) ==
     /\ st' = [st EXCEPT ![p] = "attempted"]
     /\ applied' = <<>>
     /\ Log(<<"attempted", p>>)
-    /\ UNCHANGED <<sfetch, queue, fetching, tasks, live>>
+    /\ UNCHANGED <<sfetch, queue, fetching, tasks, live, routing, syncIn>>
 
 \* Service::connected: an inbound connection (no session, or any existing session), or our own
 \* dial completing.  to_connected() starts a fresh Connected state (empty fetching set); the
@@ -127,7 +140,7 @@ Connect(p) ==
     /\ sfetch' = [sfetch EXCEPT ![p] = {}]
     /\ applied' = <<>>
     /\ Log(<<"connect", p>>)
-    /\ UNCHANGED <<queue, fetching, tasks, live>>
+    /\ UNCHANGED <<queue, fetching, tasks, live, routing, syncIn>>
 
 \* disconnected(): fetching.retain(from # p); a persistent peer's session is kept in the
 \* Disconnected state (with its queue), any other session is dropped; the worker's tasks for p
@@ -143,6 +156,7 @@ Disconnect(p) ==
                               !.live = {g \in @ : tasks[g].peer # p}]
          IN Set(Dequeue(s0, conn \ {p}, {q \in Peer : st'[q] # "none"}, order))
     /\ Log(<<"disconnect", p>>)
+    /\ UNCHANGED <<routing, syncIn>>
 
 \* disconnected() for a link that is not the session's link (the losing connection of a conflict is
 \* torn down): ignored by the service -- in particular its fetches stay
@@ -150,15 +164,7 @@ StaleDisconnect(p) ==
     /\ st[p] # "none"
     /\ applied' = <<>>
     /\ Log(<<"stale_disconnect", p>>)
-    /\ UNCHANGED <<st, sfetch, queue, fetching, tasks, live>>
-
-\* maintain_persistent: time to dial a disconnected persistent peer again
-Retry(p) ==
-    /\ st[p] = "disconnected"
-    /\ st' = [st EXCEPT ![p] = "initial"]
-    /\ applied' = <<>>
-    /\ Log(<<"wake", 70000>>)
-    /\ UNCHANGED <<sfetch, queue, fetching, tasks, live>>
+    /\ UNCHANGED <<st, sfetch, queue, fetching, tasks, live, routing, syncIn>>
 
 \* Command::Fetch (carries a result channel)
 FetchCmd(r, p) ==
@@ -166,22 +172,26 @@ FetchCmd(r, p) ==
     /\ Set(Fetch(St, conn, sessions, r, p, TRUE))
     /\ applied' = <<>>
     /\ Log(<<"fetch", r, p>>)
-    /\ UNCHANGED st
+    /\ UNCHANGED <<st, routing, syncIn>>
 
-\* a fetch triggered by an inventory announcement of connected peer p listing a seeded repository
-\* we do not have (no result channel)
+\* an inventory announcement of connected peer p listing (only) the seeded repository r, which we do
+\* not have: the routing table is synchronised with the announced inventory -- p seeds r and
+\* nothing else -- and r is fetched from p (no result channel)
 AnnFetch(r, p) ==
     /\ Len(tasks) < MaxTasks
     /\ p \in conn
     /\ Set(Fetch(St, conn, sessions, r, p, FALSE))
+    /\ routing' = IF SyncTask THEN {x \in routing : x[2] # p} \cup {<<r, p>>} ELSE routing
     /\ applied' = <<>>
     /\ Log(<<"annfetch", r, p>>)
-    /\ UNCHANGED st
+    /\ UNCHANGED <<st, syncIn>>
 
 \* A worker finishes task g.  Wire::worker_result forwards the result to the service only if a
 \* peer with that node id is connected; Service::fetched then matches it by repository (and, since
-\* the fix, by peer).
-TaskDone(g) ==
+\* the fix, by peer).  A successful result also records the peer as a seed of the repository
+\* (seed_discovered).  The repository is still "missing" afterwards as far as the sync task is
+\* concerned (worst case: the storage does not have it -- as with the mock storage of the harness).
+TaskDone(g, ok) ==
     /\ g \in DOMAIN tasks /\ tasks[g].st = "running"
     /\ LET r == tasks[g].repo
            p == tasks[g].peer
@@ -195,6 +205,7 @@ TaskDone(g) ==
        IN
        IF forwarded /\ matches
        THEN /\ applied' = <<g, entry.gid>>
+            /\ routing' = IF ok THEN Learn(r, p) ELSE routing
             /\ \E order \in Perms(conn) :
                  LET s0 == [St EXCEPT !.tasks = t1,
                                       !.fetching[r] = NoFetch,
@@ -204,28 +215,50 @@ TaskDone(g) ==
        ELSE /\ applied' = <<>>
             /\ tasks' = t1
             /\ live' = live \ {g}
-            /\ UNCHANGED <<sfetch, queue, fetching>>
-    /\ Log(<<"done", g>>)
-    /\ UNCHANGED st
+            /\ UNCHANGED <<sfetch, queue, fetching, routing>>
+    /\ Log(<<"done", g, IF ok THEN "ok" ELSE "err">>)
+    /\ UNCHANGED <<st, syncIn>>
 
-Idle ==
-    /\ \E order \in Perms(conn) : Set(Dequeue(St, conn, sessions, order))
+\* fetch_missing_repositories: for every seeded repository (all of Repo) that is not in storage,
+\* fetch(r, p) for every connected seed p of r -- repositories in policy order, seeds in a shuffled
+\* order; the model takes any order that keeps a repository's seeds together.
+SyncPairs(c) == {x \in routing : x[2] \in c}
+GroupedPerms(M) == {q \in Perms(M) : \A i, j, k \in 1..Cardinality(M) :
+                       (i < j /\ j < k /\ q[i][1] = q[k][1]) => q[j][1] = q[i][1]}
+RECURSIVE FetchAll(_, _, _, _)
+FetchAll(s, c, ss, ord) ==
+    IF ord = <<>> THEN s
+    ELSE FetchAll(Fetch(s, c, ss, Head(ord)[1], Head(ord)[2], FALSE), c, ss, Tail(ord))
+
+\* wake() every IDLE_INTERVAL: the idle task runs dequeue_fetches; the sync task (every second
+\* wake-up, the first included) runs fetch_missing_repositories; then maintain_persistent dials
+\* every disconnected persistent peer again (its session goes back to Initial)
+Wake ==
+    /\ \E order \in Perms(conn) :
+         LET s1 == Dequeue(St, conn, sessions, order) IN
+         IF SyncTask /\ syncIn = 0
+         THEN \E ord \in GroupedPerms(SyncPairs(conn)) : Set(FetchAll(s1, conn, sessions, ord))
+         ELSE Set(s1)
+    /\ syncIn' = IF SyncTask THEN 1 - syncIn ELSE syncIn
+    /\ st' = [p \in Peer |-> IF st[p] = "disconnected" THEN "initial" ELSE st[p]]
     /\ applied' = <<>>
     /\ Log(<<"idle">>)
-    /\ UNCHANGED st
+    /\ UNCHANGED routing
+
+Done == \E g \in DOMAIN tasks, ok \in BOOLEAN : TaskDone(g, ok)
 
 Next ==
-    \/ \E p \in Peer : Attempt(p) \/ Connect(p) \/ Disconnect(p) \/ StaleDisconnect(p) \/ Retry(p)
+    \/ \E p \in Peer : Attempt(p) \/ Connect(p) \/ Disconnect(p) \/ StaleDisconnect(p)
     \/ \E r \in Repo, p \in Peer : FetchCmd(r, p) \/ AnnFetch(r, p)
-    \/ \E g \in DOMAIN tasks : TaskDone(g)
-    \/ Idle
+    \/ Done
+    \/ Wake
 
 Spec == Init /\ [][Next]_vars
 
 \* Liveness (beyond the listed properties): the worker pool eventually finishes every task and the
 \* node keeps waking up; the environment (connections, commands) is not assumed fair.
-Fairness == /\ \A g \in 1..(MaxTasks + QueueMax * Cardinality(Peer)) : WF_vars(TaskDone(g))
-            /\ WF_vars(Idle)
+Fairness == /\ \A g \in 1..(MaxTasks + QueueMax * Cardinality(Peer)) : WF_vars(\E ok \in BOOLEAN : TaskDone(g, ok))
+            /\ WF_vars(Wake)
 LiveSpec == Spec /\ Fairness
 
 \* No starvation: while its session stays connected, a fetch waiting in the session's queue is
